@@ -221,3 +221,7 @@ def replay(case):
 if __name__ == "__main__":
     if len(sys.argv) >= 4 and sys.argv[1] == "--emit":
         emit(int(sys.argv[2]), int(sys.argv[3]))
+
+
+def install_for_suite():
+    mon_dsl.install_canon()
